@@ -109,13 +109,22 @@ Inductive satisfies : ctr -> obj -> Prop :=
 | S_choice cs c o : In c cs -> satisfies c o -> satisfies (CChoice cs) o
 | S_opt c o : satisfies (COpt c) o.
 
+(* destructs every integer comparison of the goal (robust against re-phrasings of the translated tests) *)
+Ltac bcmp :=
+  repeat match goal with
+         | |- context [Z.geb ?a ?b] => destruct (Z.geb_spec a b)
+         | |- context [Z.gtb ?a ?b] => destruct (Z.gtb_spec a b)
+         | |- context [Z.leb ?a ?b] => destruct (Z.leb_spec a b)
+         | |- context [Z.ltb ?a ?b] => destruct (Z.ltb_spec a b)
+         end.
+
 Lemma int_ok_spec mb z : int_ok mb z = true <-> int_in_range mb z.
 Proof.
   unfold int_ok, int_check, int_in_range. destruct mb as [m|]; [|cbn; tauto].
   destruct (m =? -1).
   - unfold int_check_32. change (Z.pow 2 31) with 2147483648. change (2 ^ 31) with 2147483648.
-    destruct (Z.geb_spec z 2147483648), (Z.ltb_spec z (Z.opp 2147483648)); cbn [orb is_ok]; split; intros; try discriminate; try lia; reflexivity.
-  - unfold int_check_mb. destruct (Z.geb_spec (Z.abs z) (Z.pow 2 (Z.mul 8 m))); cbn [is_ok]; split; intros; try discriminate; try lia; reflexivity.
+    bcmp; cbn [orb andb negb is_ok]; split; intros; try discriminate; try lia; reflexivity.
+  - unfold int_check_mb. bcmp; cbn [orb andb negb is_ok]; split; intros; try discriminate; try lia; reflexivity.
 Qed.
 
 Lemma over_max_gt mx n : over_max SGt mx n = false <-> max_in mx n.
@@ -357,4 +366,435 @@ Proof. vm_compute. auto. Qed.
 
 Theorem C12_refuted_any_huge_int :
   checkObject CAny (OInt (2 ^ 8001)) = true /\ recvw (Some CAny) (slice (OInt (2 ^ 8001))) = RViol.
+Proof. vm_compute. auto. Qed.
+
+(* ------------------------------------------------------------------ C12: sender-accepted implies receiver-accepted *)
+Lemma int_token_cases z :
+  (int_token z = (133, bytelen z) /\ 2147483648 <= z) \/
+  (int_token z = (129, z) /\ 0 <= z < 2147483648) \/
+  (int_token z = (134, bytelen (- z)) /\ z < - 2147483648) \/
+  (int_token z = (131, - z) /\ - 2147483648 <= z < 0).
+Proof.
+  unfold int_token. change (Z.pow 2 31) with 2147483648.
+  destruct (Z.geb_spec z 2147483648); [left; split; [reflexivity|lia]|].
+  destruct (Z.geb_spec z 0); [right; left; split; [reflexivity|lia]|].
+  destruct (Z.gtb_spec (Z.opp z) 2147483648); [right; right; left; split; [reflexivity|lia]|].
+  right; right; right. split; [reflexivity|lia].
+Qed.
+
+(* the byte length of n is at most m when n < 2^(8m): the LONGINT body of an accepted integer fits the taster's limit *)
+Lemma bytelen_bound n m : 0 < n -> 0 <= m -> n < 2 ^ (8 * m) -> bytelen n <= m.
+Proof.
+  intros Hn Hm Hlt. unfold bytelen.
+  destruct (long_to_bytes_spec n ltac:(lia)) as (ds & E & _).
+  rewrite E. pose proof (long_to_bytes_length n (rev ds) Hn E) as [L _].
+  set (k := Z.of_nat (List.length (rev ds))) in *.
+  destruct (Z.le_gt_cases k m) as [|G]; [assumption|exfalso].
+  replace (2 ^ (8 * m)) with (256 ^ m) in Hlt by (rewrite Z.pow_mul_r by lia; reflexivity).
+  assert (256 ^ m <= 256 ^ (k - 1)) by (apply Z.pow_le_mono_r; lia). lia.
+Qed.
+
+Lemma limit_ok flag size l : scmp_eval token_size_cmp size l = false ->
+  ((negb flag || negb (l =? 0)) && scmp_eval token_size_cmp size l) = false.
+Proof. intros ->. apply andb_false_r. Qed.
+
+Lemma int_taste mb z ex strict :
+  mb_wf mb true = true -> int_ok mb z = true ->
+  checkToken_base (int_taster mb ++ ex) strict (fst (int_token z)) (snd (int_token z)) = TOk.
+Proof.
+  intros W H. apply int_ok_spec in H. unfold int_in_range in H.
+  destruct mb as [m|].
+  - unfold mb_wf in W. change int_maxBytes_min with 4 in W.
+    destruct (Z.eqb_spec m (-1)) as [->|Hm].
+    + cbn in H. destruct (int_token_cases z) as [[E B]|[[E B]|[[E B]|[E B]]]]; rewrite E; cbn [fst snd]; try lia; reflexivity.
+    + cbn [andb orb] in W. apply Z.leb_le in W.
+      destruct m as [|p|p]; try lia.
+      assert (Hpos : 0 <= Z.pos p) by lia.
+      assert (G : forall n, 0 < n -> n < 2 ^ (8 * Z.pos p) -> scmp_eval token_size_cmp (bytelen n) (Z.pos p) = false).
+      { intros n Hn Hlt. change token_size_cmp with SGt. cbn [scmp_eval].
+        pose proof (bytelen_bound n (Z.pos p) Hn Hpos Hlt). destruct (Z.gtb_spec (bytelen n) (Z.pos p)); [lia|reflexivity]. }
+      destruct (int_token_cases z) as [[E B]|[[E B]|[[E B]|[E B]]]]; rewrite E; cbn [fst snd].
+      * unfold checkToken_base. cbn -[bytelen scmp_eval token_size_cmp token_limit_zero_unlimited Z.eqb].
+        change (133 =? 129) with false. change (133 =? 131) with false. change (133 =? 133) with true. cbv iota.
+        rewrite limit_ok; [reflexivity|]. apply G; lia.
+      * reflexivity.
+      * unfold checkToken_base. cbn -[bytelen scmp_eval token_size_cmp token_limit_zero_unlimited Z.eqb].
+        change (134 =? 129) with false. change (134 =? 131) with false. change (134 =? 133) with false.
+        change (134 =? 134) with true. cbv iota.
+        rewrite limit_ok; [reflexivity|]. apply G; lia.
+      * reflexivity.
+  - destruct (int_token_cases z) as [[E B]|[[E B]|[[E B]|[E B]]]]; rewrite E; reflexivity.
+Qed.
+
+Lemma of_tv_ok t o : t = TOk -> of_tv t o = RDeliver o.
+Proof. intros ->. reflexivity. Qed.
+
+Lemma slice_int z : slice (OInt z) = WInt (fst (int_token z)) (snd (int_token z)) z.
+Proof. cbn [slice]. destruct (int_token z). reflexivity. Qed.
+
+(* a container child receiving the slices of l, when every slot is open and its element is delivered *)
+Lemma kids_deliver ch (slotc : nat -> option ctr) l : forall i,
+  (forall j x, nth_error l j = Some x ->
+     child_slot ch (i + j) = Some (slotc (i + j)%nat) /\ recvw (slotc (i + j)%nat) (slice x) = RDeliver x) ->
+  kids_with recvw ch (map slice l) i = KOk l.
+Proof.
+  induction l as [|x l IH]; intros i H; [reflexivity|].
+  cbn [map kids_with]. destruct (H O x eq_refl) as [A1 A2]. rewrite Nat.add_0_r in A1, A2. rewrite A1, A2.
+  rewrite (IH (S i)); [reflexivity|]. intros j y Hy. specialize (H (S j) y Hy). rewrite Nat.add_succ_r in H. exact H.
+Qed.
+
+Lemma nth_error_lt {A} (l : list A) j x : nth_error l j = Some x -> (j < List.length l)%nat.
+Proof. intros H. apply nth_error_Some. congruence. Qed.
+
+Lemma forallb_nth {A} (f : A -> bool) l j x : forallb f l = true -> nth_error l j = Some x -> f x = true.
+Proof. intros H E. rewrite forallb_forall in H. apply H. eapply nth_error_In; eassumption. Qed.
+
+Lemma all2_nth {A B} (f : A -> B -> bool) : forall cs l j c x,
+  all2 f cs l = true -> nth_error cs j = Some c -> nth_error l j = Some x -> f c x = true.
+Proof.
+  induction cs as [|c0 cs IH]; intros l j c x H Ec El; [destruct j; discriminate|].
+  destruct l as [|x0 l]; [destruct j; discriminate|]. cbn [all2] in H. apply andb_true_iff in H as [H1 H2].
+  destruct j; cbn in Ec, El; [congruence|]. eapply IH; eassumption.
+Qed.
+
+Lemma over_ge_false mx n len : max_in mx len -> n < len -> over_max SGe mx n = false.
+Proof. destruct mx as [m|]; cbn; [|reflexivity]. intros. destruct (Z.geb_spec n m); [lia|reflexivity]. Qed.
+
+Lemma map_interleave {A B} (f : A -> B) : forall a b, interleave (map f a) (map f b) = map f (interleave a b).
+Proof. induction a as [|x a IH]; intros [|y b]; cbn; try reflexivity. rewrite IH. reflexivity. Qed.
+
+Lemma nth_interleave {A} : forall (ks vs : list A) j x, nth_error (interleave ks vs) j = Some x ->
+  (Nat.div2 j < List.length ks)%nat /\
+  (if Nat.even j then nth_error ks (Nat.div2 j) = Some x else nth_error vs (Nat.div2 j) = Some x).
+Proof.
+  induction ks as [|k ks IH]; intros vs j x H; [destruct j; discriminate|].
+  destruct vs as [|v vs]; [destruct j; discriminate|]. cbn [interleave] in H.
+  destruct j as [|[|j]]; cbn in H.
+  - inversion H; subst. cbn. split; [lia|reflexivity].
+  - inversion H; subst. cbn. split; [lia|reflexivity].
+  - destruct (IH vs j x H) as [A1 A2]. cbn [Nat.div2 List.length]. split; [lia|].
+    change (Nat.even (S (S j))) with (Nat.even j). cbn [nth_error]. exact A2.
+Qed.
+
+Lemma evens_odds_interleave {A} : forall (ks vs : list A), List.length ks = List.length vs ->
+  evens (interleave ks vs) = ks /\ odds (interleave ks vs) = vs.
+Proof.
+  induction ks as [|k ks IH]; intros [|v vs] H; try discriminate; cbn; [split; reflexivity|].
+  destruct (IH vs ltac:(cbn in H; lia)) as [-> ->]. split; reflexivity.
+Qed.
+
+Lemma recvw_free : forall o, owf o = true -> recvw None (slice o) = RDeliver o.
+Proof.
+  induction o using obj_ind'; intros W; try reflexivity; try (destruct b; reflexivity).
+  - rewrite slice_int. reflexivity.
+  - cbn [slice recvw slot_open slot_opentype child_of free_child negb]. cbn [owf] in W.
+    rewrite (kids_deliver _ (fun _ => None)); [reflexivity|]. intros j x Hx. split; [reflexivity|].
+    rewrite Forall_forall in H. apply H; [eapply nth_error_In; eassumption|eapply forallb_nth; eassumption].
+  - cbn [slice recvw slot_open slot_opentype child_of free_child negb]. cbn [owf] in W.
+    rewrite (kids_deliver _ (fun _ => None)); [reflexivity|]. intros j x Hx. split; [reflexivity|].
+    rewrite Forall_forall in H. apply H; [eapply nth_error_In; eassumption|eapply forallb_nth; eassumption].
+  - cbn [slice recvw slot_open slot_opentype child_of free_child negb]. cbn [owf] in W.
+    rewrite (kids_deliver _ (fun _ => None)); [reflexivity|]. intros j x Hx. split; [reflexivity|].
+    rewrite Forall_forall in H. apply H; [eapply nth_error_In; eassumption|eapply forallb_nth; eassumption].
+  - cbn [slice recvw slot_open slot_opentype child_of free_child negb]. cbn [owf] in W.
+    rewrite (kids_deliver _ (fun _ => None)); [reflexivity|]. intros j x Hx. split; [reflexivity|].
+    rewrite Forall_forall in H. apply H; [eapply nth_error_In; eassumption|eapply forallb_nth; eassumption].
+  - cbn [slice recvw slot_open slot_opentype child_of free_child negb]. cbn [owf] in W.
+    apply andb_true_iff in W as [W W3]. apply andb_true_iff in W as [W1 W2]. apply Nat.eqb_eq in W1.
+    rewrite map_interleave. rewrite (kids_deliver _ (fun _ => None)).
+    + cbn [build]. destruct (evens_odds_interleave ks vs W1) as [E1 E2]. rewrite E1, E2. reflexivity.
+    + intros j x Hx. split; [reflexivity|]. apply nth_interleave in Hx as [_ Hx]. rewrite Forall_forall in H, H0.
+      destruct (Nat.even j).
+      * apply H; [eapply nth_error_In; eassumption|exact (forallb_nth _ _ _ _ W2 Hx)].
+      * apply H0; [eapply nth_error_In; eassumption|exact (forallb_nth _ _ _ _ W3 Hx)].
+Qed.
+
+Lemma recvw_any_open ot kids : recvw (Some CAny) (WOpen ot kids) = recvw None (WOpen ot kids).
+Proof. destruct ot; reflexivity. Qed.
+
+Definition tokenlike (o : obj) : Prop :=
+  match o with OInt _ | OFloat _ | OBytes _ => True | _ => False end.
+
+Lemma of_tv_deliver t o o' : of_tv t o = RDeliver o' -> t = TOk.
+Proof. destruct t; cbn; intros E; [reflexivity|discriminate|discriminate]. Qed.
+
+Lemma existsb_intro {A} (f : A -> bool) l x : In x l -> f x = true -> existsb f l = true.
+Proof. intros Hin Hf. apply existsb_exists. exists x. auto. Qed.
+
+Lemma utf8size_bound cps : 0 <= utf8size cps <= 4 * zlen cps.
+Proof.
+  induction cps as [|cp cps IH]; [cbn; unfold zlen; cbn; lia|].
+  rewrite zlen_cons. cbn [utf8size fold_right]. fold (utf8size cps). unfold utf8len.
+  destruct (cp <? 128), (cp <? 2048), (cp <? 65536); lia.
+Qed.
+
+(* everything the guard's choice/optional/any clauses need about a value that travels as one token or as `none` *)
+Lemma everything_token o strictflag :
+  is_token_or_none o = true -> any_int_ok o = true ->
+  match o with
+  | ONone => True
+  | _ => exists tb size, (forall oc, recvw oc (slice o) = slot_token oc tb size o) /\
+                         checkToken_base everythingTaster strictflag tb size = TOk
+  end.
+Proof.
+  intros T A. destruct o; try discriminate; try exact I.
+  - exists (fst (int_token z)), (snd (int_token z)). split; [intros oc; rewrite slice_int; reflexivity|].
+    cbn [any_int_ok] in A. destruct (int_token z) as [tb size]. cbn [fst snd].
+    unfold checkToken_base in *. destruct (assoc tb everythingTaster) as [[l|]|]; try discriminate; try reflexivity.
+    destruct ((negb token_limit_zero_unlimited || negb (l =? 0)) && scmp_eval token_size_cmp size l); [discriminate|reflexivity].
+  - exists 132, 0. split; [intros oc; reflexivity|reflexivity].
+  - exists 130, (zlen bs). split; [intros oc; reflexivity|reflexivity].
+Qed.
+
+Lemma number_taster_float mb : assoc 132 (number_taster mb) = Some None.
+Proof. destruct mb as [[|p|[p|p|]]|]; reflexivity. Qed.
+
+Theorem c12_main : forall c o,
+  wf c = true -> owf o = true -> c12_guard c o = true -> checkObject c o = true ->
+  recvw (Some c) (slice o) = RDeliver o.
+Proof.
+  induction c using ctr_ind'; intros o W OW G CO.
+  - (* Any *)
+    destruct o.
+    + cbn [c12_guard] in G. rewrite slice_int. cbn [recvw slot_token taste]. apply of_tv_ok.
+      cbn [any_int_ok] in G. destruct (int_token z) as [tb size]. cbn [fst snd].
+      change (taster_of CAny) with everythingTaster. change (strict_of CAny) with false.
+      destruct (checkToken_base everythingTaster false tb size); [reflexivity|discriminate|discriminate].
+    + reflexivity.
+    + reflexivity.
+    + exact (eq_trans (recvw_any_open _ _) (recvw_free (OText cps) OW)).
+    + exact (eq_trans (recvw_any_open _ _) (recvw_free (OBool b) OW)).
+    + reflexivity.
+    + exact (eq_trans (recvw_any_open _ _) (recvw_free (OList l) OW)).
+    + exact (eq_trans (recvw_any_open _ _) (recvw_free (OTuple l) OW)).
+    + exact (eq_trans (recvw_any_open _ _) (recvw_free (OSet l) OW)).
+    + exact (eq_trans (recvw_any_open _ _) (recvw_free (OFset l) OW)).
+    + exact (eq_trans (recvw_any_open _ _) (recvw_free (ODict ks vs) OW)).
+  - (* Int *)
+    destruct o; try discriminate. cbn [checkObject] in CO. cbn [wf] in W. rewrite slice_int. cbn [recvw slot_token taste].
+    apply of_tv_ok. change (taster_of (CInt mb)) with (int_taster mb). rewrite <- (app_nil_r (int_taster mb)).
+    apply int_taste; assumption.
+  - (* Number *)
+    destruct o; try discriminate;
+      [|cbn [slice recvw slot_token taste]; unfold checkToken_base; change (taster_of (CNumber mb)) with (number_taster mb);
+        change tok_FLOAT with 132; rewrite number_taster_float; reflexivity].
+    cbn [checkObject] in CO. cbn [wf] in W. rewrite slice_int.
+    cbn [recvw slot_token taste]. apply of_tv_ok. change (taster_of (CNumber mb)) with (int_taster mb ++ [(132, None)]).
+    apply int_taste; [|assumption]. destruct mb as [m|]; [|reflexivity]. unfold mb_wf in *. cbn [andb orb] in *. rewrite W. apply orb_true_r.
+  - (* Bytes *)
+    destruct o; try discriminate. cbn [checkObject] in CO. apply (len_ok_spec mx mn) in CO as [H1 H2].
+    cbn [slice recvw slot_token taste]. apply of_tv_ok.
+    unfold checkToken_base. cbn [taster_of bytes_taster assoc]. change (tok_STRING =? 130) with true. cbv iota.
+    destruct mx as [l|]; [|reflexivity]. rewrite limit_ok; [reflexivity|]. cbn in H1. change token_size_cmp with SGt. cbn [scmp_eval].
+    destruct (Z.gtb_spec (zlen bs) l); [lia|reflexivity].
+  - (* Text *)
+    destruct o; try discriminate. cbn [checkObject] in CO. apply (len_ok_spec mx mn) in CO as [H1 H2].
+    cbn [slice recvw]. change (slot_open (Some (CText mx mn))) with TOk. change (slot_opentype (Some (CText mx mn)) OtUnicode) with true.
+    cbn [negb child_of recv_text]. 
+    assert (E : text_body_too_long mx false (utf8size cps) = false).
+    { unfold text_body_too_long. destruct mx as [m|]; [|apply andb_false_r]. cbn in H1.
+      change unicode_size_cmp with SGt. change unicode_size_factor with 6. cbn [scmp_eval].
+      pose proof (utf8size_bound cps). destruct (Z.gtb_spec (utf8size cps) (6 * m)); [lia|apply andb_false_r]. }
+    rewrite E. reflexivity.
+  - (* Bool *)
+    destruct o; try discriminate. cbn [checkObject] in CO. cbn [slice recvw].
+    change (slot_open (Some (CBool v))) with TOk. change (slot_opentype (Some (CBool v)) OtBool) with true.
+    cbn [negb child_of recv_bool]. change (129 =? tok_INT) with true. cbn [negb].
+    destruct b; cbn [Z.eqb negb]; rewrite CO; reflexivity.
+  - (* None *)
+    destruct o; try discriminate. reflexivity.
+  - (* List *)
+    destruct o; try discriminate. cbn [checkObject] in CO. apply andb_true_iff in CO as [H1 H2].
+    apply (len_ok_spec mx mn) in H1 as [H1 _]. cbn [wf] in W. cbn [owf] in OW. cbn [c12_guard] in G.
+    cbn [slice recvw]. change (slot_open (Some (CList c mx mn))) with TOk.
+    change (slot_opentype (Some (CList c mx mn)) OtList) with true. cbn [negb child_of].
+    rewrite (kids_deliver _ (fun _ => Some c)); [reflexivity|]. intros j x Hx. cbn [Nat.add]. split.
+    + cbn [child_slot]. change list_full_cmp with SGe. rewrite (over_ge_false mx _ (zlen l) H1); [reflexivity|].
+      apply nth_error_lt in Hx. unfold zlen. lia.
+    + apply IHc; try assumption; eapply forallb_nth; eassumption.
+  - (* Tuple *)
+    destruct o; try discriminate. cbn [checkObject] in CO. apply andb_true_iff in CO as [H1 H2].
+    cbn [wf] in W. cbn [owf] in OW. cbn [c12_guard] in G. change tuple_len_cmp with SNe in H1. cbn [scmp_eval] in H1.
+    rewrite negb_involutive in H1. apply Z.eqb_eq in H1.
+    cbn [slice recvw]. change (slot_open (Some (CTuple cs))) with TOk.
+    change (slot_opentype (Some (CTuple cs)) OtTuple) with true. cbn [negb child_of].
+    rewrite (kids_deliver _ (fun j => nth_error cs j)); [reflexivity|]. intros j x Hx. cbn [Nat.add].
+    pose proof (nth_error_lt _ _ _ Hx) as Hj. assert (Hj' : (j < List.length cs)%nat) by (unfold zlen in H1; lia).
+    destruct (nth_error cs j) as [cj|] eqn:Ej; [|apply nth_error_None in Ej; lia]. split.
+    + cbn [child_slot]. change tuple_full_cmp with SGe. cbn [scmp_eval]. rewrite Ej.
+      destruct (Z.geb_spec (Z.of_nat j) (zlen cs)); [unfold zlen in *; lia|reflexivity].
+    + rewrite Forall_forall in H. apply H.
+      * eapply nth_error_In; eassumption.
+      * eapply forallb_nth; eassumption.
+      * eapply forallb_nth; eassumption.
+      * eapply all2_nth; eassumption.
+      * eapply all2_nth; eassumption.
+  - (* Dict *)
+    destruct o; try discriminate. cbn [checkObject] in CO. apply andb_true_iff in CO as [CO H3]. apply andb_true_iff in CO as [H1 H2].
+    apply negb_true_iff in H1. apply (over_max_gt mk) in H1.
+    cbn [wf] in W. apply andb_true_iff in W as [W1 W2]. cbn [owf] in OW. apply andb_true_iff in OW as [OW OW3].
+    apply andb_true_iff in OW as [OW1 OW2]. apply Nat.eqb_eq in OW1.
+    cbn [c12_guard] in G. apply andb_true_iff in G as [G1 G2].
+    cbn [slice recvw]. change (slot_open (Some (CDict c1 c2 mk))) with TOk.
+    change (slot_opentype (Some (CDict c1 c2 mk)) OtDict) with true. cbn [negb child_of].
+    rewrite map_interleave.
+    rewrite (kids_deliver _ (fun j => Some (if Nat.even j then c1 else c2))).
+    + cbn [build]. destruct (evens_odds_interleave ks vs OW1) as [E1 E2]. rewrite E1, E2. reflexivity.
+    + intros j x Hx. cbn [Nat.add]. apply nth_interleave in Hx as [Hlt Hx]. split.
+      * cbn [child_slot]. change dict_full_cmp with SGe. rewrite (over_ge_false mk _ (zlen ks) H1); [reflexivity|].
+        unfold zlen. lia.
+      * destruct (Nat.even j).
+        -- apply IHc1; [exact W1|exact (forallb_nth _ _ _ _ OW2 Hx)|exact (forallb_nth _ _ _ _ G1 Hx)|exact (forallb_nth _ _ _ _ H2 Hx)].
+        -- apply IHc2; [exact W2|exact (forallb_nth _ _ _ _ OW3 Hx)|exact (forallb_nth _ _ _ _ G2 Hx)|exact (forallb_nth _ _ _ _ H3 Hx)].
+  - (* Set *)
+    cbn [wf] in W.
+    destruct o; try discriminate; cbn [checkObject] in CO; apply andb_true_iff in CO as [CO H3]; apply andb_true_iff in CO as [H1 H2];
+      apply negb_true_iff in H2; apply (over_max_gt mx) in H2; cbn [owf] in OW; cbn [c12_guard] in G; cbn [slice recvw].
+    + change (slot_open (Some (CSet c mx mut))) with TOk. change (slot_opentype (Some (CSet c mx mut)) OtSet) with true.
+      cbn [negb child_of]. rewrite (kids_deliver _ (fun _ => Some c)); [reflexivity|]. intros j x Hx. cbn [Nat.add]. split.
+      * cbn [child_slot]. change set_full_cmp with SGe. rewrite (over_ge_false mx _ (zlen l) H2); [reflexivity|].
+        apply nth_error_lt in Hx. unfold zlen. lia.
+      * apply IHc; try assumption; eapply forallb_nth; eassumption.
+    + change (slot_open (Some (CSet c mx mut))) with TOk. change (slot_opentype (Some (CSet c mx mut)) OtFset) with true.
+      cbn [negb child_of]. rewrite (kids_deliver _ (fun _ => Some c)); [reflexivity|]. intros j x Hx. cbn [Nat.add]. split.
+      * cbn [child_slot]. change fset_full_cmp with SGe. rewrite (over_ge_false mx _ (zlen l) H2); [reflexivity|].
+        apply nth_error_lt in Hx. unfold zlen. lia.
+      * apply IHc; try assumption; eapply forallb_nth; eassumption.
+  - (* Choice *)
+    cbn [c12_guard] in G. apply andb_true_iff in G as [T G]. apply existsb_exists in G as (c1 & Hin & G).
+    apply andb_true_iff in G as [Hc1 G1]. cbn [wf] in W. rewrite Forall_forall in H.
+    assert (D : recvw (Some c1) (slice o) = RDeliver o).
+    { apply H; try assumption. rewrite forallb_forall in W. apply W. assumption. }
+    destruct o; try discriminate.
+    + rewrite slice_int in *. cbn [recvw slot_token] in *. apply of_tv_deliver in D. apply of_tv_ok.
+      cbn [taste]. rewrite (existsb_intro _ cs c1 Hin); [reflexivity|]. rewrite D. reflexivity.
+    + cbn [slice recvw slot_token] in *. apply of_tv_deliver in D. apply of_tv_ok.
+      cbn [taste]. rewrite (existsb_intro _ cs c1 Hin); [reflexivity|]. rewrite D. reflexivity.
+    + cbn [slice recvw slot_token] in *. apply of_tv_deliver in D. apply of_tv_ok.
+      cbn [taste]. rewrite (existsb_intro _ cs c1 Hin); [reflexivity|]. rewrite D. reflexivity.
+    + cbn [slice recvw] in *. 
+      assert (O1 : slot_open (Some c1) = TOk).
+      { destruct (slot_open (Some c1)); [reflexivity|discriminate|discriminate]. }
+      assert (O2 : slot_open (Some (CChoice cs)) = TOk).
+      { cbn [slot_open taste]. rewrite (existsb_intro _ cs c1 Hin); [reflexivity|]. cbn [slot_open] in O1. rewrite O1. reflexivity. }
+      rewrite O2. reflexivity.
+  - (* Optional below the argument level *)
+    cbn [c12_guard] in G. apply andb_true_iff in G as [T A].
+    pose proof (everything_token o false T A) as E. destruct o; try discriminate; try reflexivity.
+    all: destruct E as (tb & size & E1 & E2); rewrite E1; cbn [slot_token taste]; apply of_tv_ok; exact E2.
+Qed.
+
+Example c12_main_nonvacuous :
+  let c := CTuple [CInt (Some (-1)); CInt (Some 4); CList (CText (Some 2) 0) (Some 2) 1; CDict (CBytes (Some 1) 0) (CSet (CBool None) (Some 1) None) (Some 1);
+                   CChoice [CInt (Some 1024); CNone]] in
+  let o := OTuple [OInt (- 2 ^ 31); OInt (2 ^ 32 - 1); OList [OText [8364; 8364]; OText []]; ODict [OBytes [7]] [OFset [OBool true]]; ONone] in
+  wf c = true /\ owf o = true /\ c12_guard c o = true /\ checkObject c o = true /\ recvw (Some c) (slice o) = RDeliver o.
+Proof. vm_compute. auto. Qed.
+
+(* the same at the level of a whole call of a one-argument method: what callRemote's check lets through is delivered *)
+Theorem c12_call1 : forall c o,
+  wf c = true -> owf o = true -> c12_guard c o = true ->
+  forall p k, send_call (ms1 c) [o] [] = Some (p, k) -> recv_call (ms1 c) p k = CInvoke [o] [].
+Proof.
+  intros c o W OW G p k S. unfold send_call in S.
+  destruct (checkAllArgs (ms1 c) [o] []) as [[]|t] eqn:E; [|discriminate]. inversion S; subst p k. clear S.
+  assert (CO : checkObject c o = true).
+  { apply checkAllArgs_spec in E as (_ & _ & A3 & _). destruct (A3 1 o) as (sp & L & Sat); [left; reflexivity|].
+    cbn in L. inversion L; subst sp. cbn in Sat. apply checkObject_sound. exact Sat. }
+  unfold recv_call. cbn [map recv_pos]. change posarg_full_cmp with SGe. cbn [scmp_eval ms1 ms_args nth_error option_map a_ctr].
+  change (Z.of_nat 0 >=? zlen [{| a_name := 1; a_ctr := c; a_opt := false |}]) with false. cbv iota.
+  rewrite (c12_main c o W OW G CO). cbn [recv_pos recv_kw List.length firstn]. unfold doCall. change doCall_shape with CheckedBeforeCall.
+  cbv iota. change {| ms_args := [{| a_name := 1; a_ctr := c; a_opt := false |}]; ms_resp := None |} with (ms1 c). rewrite E. reflexivity.
+Qed.
+
+(* ------------------------------------------------------------------ C02, result side: what still holds (partial) *)
+Lemma wwf_int tb s v : wwf (WInt tb s v) = true -> tb = 129 \/ tb = 131 \/ tb = 133 \/ tb = 134.
+Proof.
+  cbn [wwf]. change tok_INT with 129. change tok_NEG with 131. change tok_LONGINT with 133. change tok_LONGNEG with 134.
+  intros H. repeat (apply orb_true_iff in H as [H|H]); apply Z.eqb_eq in H; auto.
+Qed.
+
+Lemma kids_sound ch ci :
+  (forall i, child_slot ch i = Some (Some ci)) ->
+  (forall w v, wwf w = true -> recvw (Some ci) w = RDeliver v -> checkObject ci v = true) ->
+  forall kids i l, forallb wwf kids = true -> kids_with recvw ch kids i = KOk l -> forallb (checkObject ci) l = true.
+Proof.
+  intros Hs IH. induction kids as [|k kids IHk]; intros i l W E.
+  - cbn in E. inversion E. reflexivity.
+  - cbn [kids_with] in E. rewrite Hs in E. cbn [forallb] in W. apply andb_true_iff in W as [W1 W2].
+    destruct (recvw (Some ci) k) as [x| |] eqn:R; try discriminate.
+    destruct (kids_with recvw ch kids (S i)) as [l'| |] eqn:K; try discriminate.
+    inversion E; subst. cbn [forallb]. rewrite (IH k x W1 R). cbn [andb]. eapply IHk; eassumption.
+Qed.
+
+Ltac kill_int_tokens H W :=
+  let T := fresh in
+  pose proof (wwf_int _ _ _ W) as T; destruct T as [T|[T|[T|T]]]; subst; cbn in H; discriminate.
+
+(* C02, result side, for the constraints whose token-level enforcement is complete: the value handed to the callback
+   does satisfy the result constraint (w: ANY well-formed wire tree, including forged references) *)
+Theorem C02_result_partial_main : forall c w v,
+  complete c = true -> wwf w = true -> recv_answer (Some c) w = Callback v -> checkObject c v = true.
+Proof.
+  intros c w v C W H. unfold recv_answer in H. change answer_checks_object with false in H. cbv iota in H.
+  destruct (recvw (Some c) w) as [v'| |] eqn:R; try discriminate. inversion H; subst v'. clear H.
+  revert w v W R. induction c using ctr_ind'; intros w res W R; try discriminate C.
+  - reflexivity.
+  - (* Int None *)
+    destruct mb; [discriminate C|]. destruct w; try destruct vocab; cbn in R; try discriminate.
+    pose proof (wwf_int _ _ _ W) as T. destruct T as [T|[T|[T|T]]]; subst; cbn in R; inversion R; reflexivity.
+  - (* Number None *)
+    destruct mb; [discriminate C|]. destruct w; try destruct vocab; cbn in R; try discriminate.
+    + pose proof (wwf_int _ _ _ W) as T. destruct T as [T|[T|[T|T]]]; subst; cbn in R; inversion R; reflexivity.
+    + inversion R. reflexivity.
+  - (* Bytes None mn<=0 *)
+    destruct mx; [discriminate C|]. cbn [complete] in C. apply Z.leb_le in C.
+    destruct w; try (cbn in R; discriminate).
+    + kill_int_tokens R W.
+    + destruct vocab; cbn in R; inversion R; subst; cbn [checkObject]; apply (len_ok_spec None mn);
+        (split; [exact I | pose proof (zlen_nonneg bs); lia]).
+  - (* None *)
+    destruct w; try (cbn in R; discriminate).
+    + kill_int_tokens R W.
+    + destruct vocab; cbn in R; discriminate.
+    + destruct ot; cbn in R; try discriminate. destruct kids; [inversion R; reflexivity|discriminate].
+    + cbn in R. destruct o; try discriminate. inversion R. reflexivity.
+  - (* List c None mn<=0 *)
+    destruct mx; [discriminate C|]. cbn [complete] in C. apply andb_true_iff in C as [C1 C2]. apply Z.leb_le in C1.
+    destruct w; try (cbn in R; discriminate).
+    + kill_int_tokens R W.
+    + destruct vocab; cbn in R; discriminate.
+    + destruct ot; try (cbn in R; discriminate).
+      cbn [recvw] in R. change (slot_open (Some (CList c None mn))) with TOk in R.
+      change (slot_opentype (Some (CList c None mn)) OtList) with true in R. cbn [negb child_of] in R.
+      destruct (kids_with recvw (ChList (Some c) None) kids 0) as [l| |] eqn:K; try discriminate.
+      inversion R; subst. cbn [build checkObject]. apply andb_true_iff. split.
+      * apply (len_ok_spec None mn). split; [exact I|]. pose proof (zlen_nonneg l). lia.
+      * eapply (kids_sound (ChList (Some c) None) c); [reflexivity|intros; eapply IHc; eassumption| |exact K]. exact W.
+    + cbn [recvw] in R. change (slot_open (Some (CList c None mn))) with TOk in R. change reference_rechecks_object with true in R.
+      cbn [negb orb] in R. destruct (checkObject (CList c None mn) o) eqn:E; [inversion R; subst; exact E|discriminate].
+  - (* Set c None None *)
+    destruct mx; [discriminate C|]. destruct mut; [discriminate C|]. cbn [complete] in C.
+    destruct w; try (cbn in R; discriminate).
+    + kill_int_tokens R W.
+    + destruct vocab; cbn in R; discriminate.
+    + destruct ot; try (cbn in R; discriminate).
+      * cbn [recvw] in R. change (slot_open (Some (CSet c None None))) with TOk in R.
+        change (slot_opentype (Some (CSet c None None)) OtSet) with true in R. cbn [negb child_of] in R.
+        destruct (kids_with recvw (ChSet (Some c) None) kids 0) as [l| |] eqn:K; try discriminate.
+        inversion R; subst. cbn [build checkObject mut_ok over_max negb andb].
+        eapply (kids_sound (ChSet (Some c) None) c); [reflexivity|intros; eapply IHc; eassumption| |exact K]. exact W.
+      * cbn [recvw] in R. change (slot_open (Some (CSet c None None))) with TOk in R.
+        change (slot_opentype (Some (CSet c None None)) OtFset) with true in R. cbn [negb child_of] in R.
+        destruct (kids_with recvw (ChFset (Some c) None) kids 0) as [l| |] eqn:K; try discriminate.
+        inversion R; subst. cbn [build checkObject mut_ok over_max negb andb].
+        eapply (kids_sound (ChFset (Some c) None) c); [reflexivity|intros; eapply IHc; eassumption| |exact K]. exact W.
+    + cbn [recvw] in R. change (slot_open (Some (CSet c None None))) with TOk in R. change reference_rechecks_object with true in R.
+      cbn [negb orb] in R. destruct (checkObject (CSet c None None) o) eqn:E; [inversion R; subst; exact E|discriminate].
+Qed.
+
+Example C02_result_partial_nonvacuous :
+  let c := CList (CSet (CInt None) None None) None 0 in
+  let w := slice (OList [OFset [OInt 1; OInt (2 ^ 70)]; OSet []]) in
+  complete c = true /\ wwf w = true /\ recv_answer (Some c) w = Callback (OList [OFset [OInt 1; OInt (2 ^ 70)]; OSet []]).
 Proof. vm_compute. auto. Qed.
